@@ -1,3 +1,572 @@
-import Vgi.Model.ReqBody
+import Vgi.Proofs.ReqBody
+/-!
+# C18 — Request bodies are decoded exactly and never beyond their caps
+
+Theorems about `Vgi.ReqBody` (model of `readHTTPBody`, `writeBodyReadError`, the
+`max_request_bytes` fast path of `ServeHTTP`, `decompressBounded`, `DecodeContentEncoding`).
+They quantify over **all** cap configurations (any `Int`s, incl. 0 and negatives), exempt and
+non-exempt paths, declared and chunked lengths, all `Content-Encoding` byte strings and all codec
+behaviours (`Facts`: any frame list, windows, declared size, clean or failing stream).
+
+zstd/gzip themselves are trusted: "decoded to exactly the bytes the client encoded" is carried in
+the model as "the whole cleanly-ended stream is delivered" (`total facts.frames` bytes); that the
+library's stream *is* the client's bytes is checked by the harness oracle (hash of every delivered
+body), not proved.
+-/
 namespace Vgi.Props.C18
+open Vgi Vgi.Compress Vgi.ReqBody Vgi.Proofs.ReqBody Vgi.Proofs.CompressGrammar
+
+/-- The `Content-Length` fast path of `ServeHTTP` refuses the request. -/
+def FastRefused (cfg : Cfg) (exempt : Bool) (cl : Int) : Prop :=
+  cfg.maxReq > 0 ∧ cl > cfg.maxReq ∧ exempt = false
+
+instance (cfg : Cfg) (exempt : Bool) (cl : Int) : Decidable (FastRefused cfg exempt cl) := by
+  unfold FastRefused; exact inferInstance
+
+/-! ## unfolding lemmas -/
+
+theorem serve_eq (cfg : Cfg) (exempt : Bool) (cl : Int) (rawLen : Nat) (hdr : Bytes) (facts : Facts) :
+    serve cfg exempt cl rawLen hdr facts =
+      if FastRefused cfg exempt cl then (.tooLarge cfg.maxReq, 0, 0) else readBody cfg exempt rawLen hdr facts := rfl
+
+/-- raw bytes pulled by `io.ReadAll(io.LimitReader(r.Body, limit+1))` -/
+def pulledRaw (cfg : Cfg) (exempt : Bool) (rawLen : Nat) : Nat :=
+  if (rawLimit cfg exempt).1 > 0 then min rawLen ((rawLimit cfg exempt).1.toNat + 1) else rawLen
+
+/-- the raw body overruns the limit in force -/
+def RawOver (cfg : Cfg) (exempt : Bool) (rawLen : Nat) : Prop :=
+  (rawLimit cfg exempt).1 > 0 ∧ (rawLen : Int) > (rawLimit cfg exempt).1
+
+instance (cfg : Cfg) (exempt : Bool) (rawLen : Nat) : Decidable (RawOver cfg exempt rawLen) := by
+  unfold RawOver; exact inferInstance
+
+theorem rawOver_iff (cfg : Cfg) (exempt : Bool) (rawLen : Nat) :
+    RawOver cfg exempt rawLen ↔ ¬ RawWithin cfg exempt rawLen := by
+  rw [rawWithin_iff]; unfold RawOver
+  constructor
+  · intro ⟨a, b⟩ h; have := h a; omega
+  · intro h
+    by_cases hp : (rawLimit cfg exempt).1 > 0
+    · exact ⟨hp, by
+        by_cases hle : (rawLen : Int) ≤ (rawLimit cfg exempt).1
+        · exact absurd (fun _ => hle) h
+        · omega⟩
+    · exact absurd (fun hh => absurd hh hp) h
+
+theorem readBody_eq (cfg : Cfg) (exempt : Bool) (rawLen : Nat) (hdr : Bytes) (facts : Facts) :
+    readBody cfg exempt rawLen hdr facts =
+      if RawOver cfg exempt rawLen then
+        (if (rawLimit cfg exempt).2 then .tooLarge (rawLimit cfg exempt).1 else .valueErr, pulledRaw cfg exempt rawLen, 0)
+      else match classify hdr with
+        | .identity => (.body rawLen, pulledRaw cfg exempt rawLen, 0)
+        | .unknown => (.unsupported, pulledRaw cfg exempt rawLen, 0)
+        | .codec c =>
+          let d := decompressBounded (some c) facts (decCap cfg exempt)
+          ((match d.1 with
+            | .ok n => ROut.body n
+            | .tooLarge l =>
+              if (rawLimit cfg exempt).2 = true ∧ decCap cfg exempt = (rawLimit cfg exempt).1 then .tooLarge l else .valueErr
+            | .decodeErr => .decodeErr
+            | .unsupported => .unsupported), pulledRaw cfg exempt rawLen, d.2) := by
+  unfold readBody RawOver pulledRaw
+  simp only
+  by_cases hp : (rawLimit cfg exempt).1 > 0
+  · simp only [hp, if_true, true_and]
+    by_cases ho : (rawLen : Int) > (rawLimit cfg exempt).1
+    · have : ((min rawLen ((rawLimit cfg exempt).1.toNat + 1) : Nat) : Int) > (rawLimit cfg exempt).1 := by omega
+      simp [ho, this]
+    · have : ¬ ((min rawLen ((rawLimit cfg exempt).1.toNat + 1) : Nat) : Int) > (rawLimit cfg exempt).1 := by omega
+      simp only [ho, this, if_false]
+      cases classify hdr <;> rfl
+  · simp only [hp, false_and, if_false]
+    cases classify hdr <;> rfl
+
+theorem decompressBounded_not_unsupported (c : Codec) (facts : Facts) (m : Int) :
+    (decompressBounded (some c) facts m).1 ≠ .unsupported := by
+  rw [decompressBounded_eq]
+  split
+  · simp
+  · split
+    · simp
+    · simp only
+      split
+      · split
+        · simp
+        · split
+          · split <;> simp
+          · split <;> simp
+      · split <;> simp
+
+/-! ## 1. Exactness inside the caps, refusal outside -/
+
+/-- **delivered_within_caps** (safety, no hypothesis on the codec's behaviour): whatever reaches
+the handler passed the fast path, is within every raw cap, and — for a compressed body — is the
+complete, cleanly ended decoded stream, within every decoded-size cap. -/
+theorem delivered_within_caps (cfg : Cfg) (exempt : Bool) (cl : Int) (rawLen : Nat) (hdr : Bytes)
+    (facts : Facts) (n : Nat) (h : (serve cfg exempt cl rawLen hdr facts).1 = .body n) :
+    ¬ FastRefused cfg exempt cl ∧ RawWithin cfg exempt rawLen ∧
+    (classify hdr = .identity → n = rawLen) ∧ classify hdr ≠ .unknown ∧
+    (∀ c, classify hdr = .codec c →
+      n = total facts.frames ∧ Clean facts ∧ DecWithin cfg exempt n) := by
+  rw [serve_eq] at h
+  by_cases hf : FastRefused cfg exempt cl
+  · simp [hf] at h
+  · simp only [hf, if_false] at h
+    rw [readBody_eq] at h
+    by_cases ho : RawOver cfg exempt rawLen
+    · simp only [ho, if_true] at h
+      split at h <;> simp at h
+    · simp only [ho, if_false] at h
+      have hw : RawWithin cfg exempt rawLen := by
+        by_cases hw : RawWithin cfg exempt rawLen
+        · exact hw
+        · exact absurd ((rawOver_iff _ _ _).mpr hw) ho
+      refine ⟨hf, hw, ?_⟩
+      cases hc : classify hdr with
+      | identity =>
+        simp only [hc, ROut.body.injEq] at h
+        exact ⟨fun _ => h.symm, by simp, by simp⟩
+      | unknown => simp [hc] at h
+      | codec c =>
+        simp only [hc] at h
+        refine ⟨by simp, by simp, ?_⟩
+        intro c' hc'
+        cases hc'
+        cases hd : (decompressBounded (some c) facts (decCap cfg exempt)).1 with
+        | ok k =>
+          simp only [hd, ROut.body.injEq] at h
+          obtain ⟨a, b, c2, d, _⟩ := decompressBounded_ok c facts _ k hd
+          subst h
+          refine ⟨a, ⟨b, c2⟩, ?_⟩
+          rw [decWithin_iff]; exact d
+        | tooLarge l => simp only [hd] at h; split at h <;> simp at h
+        | decodeErr => simp [hd] at h
+        | unsupported => simp [hd] at h
+
+/-- **within_caps_exact** — an identity body within the raw caps is delivered byte for byte. -/
+theorem within_caps_exact_identity (cfg : Cfg) (exempt : Bool) (cl : Int) (rawLen : Nat) (hdr : Bytes)
+    (facts : Facts) (hid : classify hdr = .identity) (hf : ¬ FastRefused cfg exempt cl)
+    (hw : RawWithin cfg exempt rawLen) :
+    (serve cfg exempt cl rawLen hdr facts).1 = .body rawLen := by
+  rw [serve_eq, if_neg hf, readBody_eq, if_neg (fun ho => (rawOver_iff _ _ _).mp ho hw), hid]
+
+/-- **within_caps_exact** — a zstd/gzip body whose wire size is within the raw caps and whose
+decoded size is within every decoded-size cap is decoded completely (`total facts.frames` bytes,
+the whole stream), provided the library decodes the stream cleanly and — zstd only, the hedge in
+the property's quantifier — every frame window fits the decoder's memory bound and the declared
+content size is not above the cap. -/
+theorem within_caps_exact (cfg : Cfg) (exempt : Bool) (cl : Int) (rawLen : Nat) (hdr : Bytes)
+    (facts : Facts) (c : Codec) (hc : classify hdr = .codec c) (hf : ¬ FastRefused cfg exempt cl)
+    (hw : RawWithin cfg exempt rawLen) (hcl : Clean facts)
+    (hd : DecWithin cfg exempt (total facts.frames))
+    (hwin : WindowsFit c facts (decCap cfg exempt))
+    (hdecl : decCap cfg exempt > 0 → DeclaredFits facts (decCap cfg exempt)) :
+    (serve cfg exempt cl rawLen hdr facts).1 = .body (total facts.frames) := by
+  rw [serve_eq, if_neg hf, readBody_eq, if_neg (fun ho => (rawOver_iff _ _ _).mp ho hw), hc]
+  simp only
+  rw [decompressBounded_clean c facts _ hcl hwin hdecl ((decWithin_iff _ _ _).mp hd)]
+
+/-- **over_cap_refused** — a body over any raw cap, refused by the fast path, or (compressed)
+decoding to more than any decoded-size cap is never delivered: the answer is 413 or 400. -/
+theorem over_cap_refused (cfg : Cfg) (exempt : Bool) (cl : Int) (rawLen : Nat) (hdr : Bytes)
+    (facts : Facts)
+    (h : FastRefused cfg exempt cl ∨ ¬ RawWithin cfg exempt rawLen ∨
+      (∃ c, classify hdr = .codec c ∧ ¬ DecWithin cfg exempt (total facts.frames))) :
+    status (serve cfg exempt cl rawLen hdr facts).1 = 413 ∨
+    status (serve cfg exempt cl rawLen hdr facts).1 = 400 := by
+  cases hs : (serve cfg exempt cl rawLen hdr facts).1 with
+  | body n =>
+    obtain ⟨a, b, _, _, e⟩ := delivered_within_caps cfg exempt cl rawLen hdr facts n hs
+    rcases h with h | h | ⟨c, hc, h⟩
+    · exact absurd h a
+    · exact absurd b h
+    · obtain ⟨e1, _, e3⟩ := e c hc
+      rw [e1] at e3; exact absurd e3 h
+  | tooLarge l => left; rfl
+  | valueErr => right; rfl
+  | decodeErr => right; rfl
+  | unsupported =>
+    exfalso
+    rw [serve_eq] at hs
+    by_cases hf : FastRefused cfg exempt cl
+    · simp [hf] at hs
+    · simp only [hf, if_false] at hs
+      rw [readBody_eq] at hs
+      by_cases ho : RawOver cfg exempt rawLen
+      · simp only [ho, if_true] at hs; split at hs <;> simp at hs
+      · rcases h with h | h | ⟨c, hc, h⟩
+        · exact hf h
+        · exact ho ((rawOver_iff _ _ _).mpr h)
+        · simp only [ho, if_false, hc] at hs
+          have hnu := decompressBounded_not_unsupported c facts (decCap cfg exempt)
+          cases hd : (decompressBounded (some c) facts (decCap cfg exempt)).1 with
+          | ok k => simp [hd] at hs
+          | tooLarge l => simp only [hd] at hs; split at hs <;> simp at hs
+          | decodeErr => simp [hd] at hs
+          | unsupported => exact hnu hd
+
+/-! ## 2. Which status -/
+
+/-- **status_413_only_advertised** — 413 is answered only in the name of the advertised
+`max_request_bytes`: it is set, the path is not exempt, the reported limit is that value, and the
+declared length, the wire size, or the declared/actual decoded size really exceeds it. -/
+theorem status_413_only_advertised (cfg : Cfg) (exempt : Bool) (cl : Int) (rawLen : Nat) (hdr : Bytes)
+    (facts : Facts) (l : Int) (h : (serve cfg exempt cl rawLen hdr facts).1 = .tooLarge l) :
+    cfg.maxReq > 0 ∧ exempt = false ∧ l = cfg.maxReq ∧
+    (cl > cfg.maxReq ∨ (rawLen : Int) > cfg.maxReq ∨
+      (∃ c, classify hdr = .codec c ∧
+        ((∃ k, facts.fcs = some k ∧ (k : Int) > cfg.maxReq) ∨ (total facts.frames : Int) > cfg.maxReq))) := by
+  rw [serve_eq] at h
+  by_cases hf : FastRefused cfg exempt cl
+  · simp only [hf, if_true, ROut.tooLarge.injEq] at h
+    exact ⟨hf.1, hf.2.2, h.symm, Or.inl hf.2.1⟩
+  · simp only [hf, if_false] at h
+    rw [readBody_eq] at h
+    obtain ⟨h1, h2, _⟩ := rawLimit_applied cfg exempt
+    by_cases ho : RawOver cfg exempt rawLen
+    · simp only [ho, if_true] at h
+      cases hb : (rawLimit cfg exempt).2 with
+      | false => simp [hb] at h
+      | true =>
+        simp only [hb, if_true, ROut.tooLarge.injEq] at h
+        have ha := h1.mp hb
+        have e := h2 ha
+        rw [e] at h
+        unfold RawOver at ho; rw [e] at ho
+        exact ⟨ha.1, ha.2.1, h.symm, Or.inr (Or.inl ho.2)⟩
+    · simp only [ho, if_false] at h
+      cases hc : classify hdr with
+      | identity => simp [hc] at h
+      | unknown => simp [hc] at h
+      | codec c =>
+        simp only [hc] at h
+        cases hd : (decompressBounded (some c) facts (decCap cfg exempt)).1 with
+        | ok k => simp [hd] at h
+        | decodeErr => simp [hd] at h
+        | unsupported => simp [hd] at h
+        | tooLarge l' =>
+          simp only [hd] at h
+          by_cases hcond : (rawLimit cfg exempt).2 = true ∧ decCap cfg exempt = (rawLimit cfg exempt).1
+          · simp only [hcond, and_self, if_true, ROut.tooLarge.injEq] at h
+            have ha := h1.mp hcond.1
+            have e := h2 ha
+            obtain ⟨t1, _, t3⟩ := decompressBounded_tooLarge c facts _ l' hd
+            rw [hcond.2, e] at t1 t3
+            exact ⟨ha.1, ha.2.1, by omega, Or.inr (Or.inr ⟨c, rfl, t3⟩)⟩
+          · simp [hcond] at h
+
+/-- **fast_path_413** — a declared length above the advertised cap is refused with 413 before
+the body is touched (nothing is read, nothing decoded). -/
+theorem fast_path_413 (cfg : Cfg) (exempt : Bool) (cl : Int) (rawLen : Nat) (hdr : Bytes) (facts : Facts)
+    (h : FastRefused cfg exempt cl) :
+    serve cfg exempt cl rawLen hdr facts = (.tooLarge cfg.maxReq, 0, 0) := by
+  rw [serve_eq, if_pos h]
+
+/-- **advertised_raw_overrun_413** — when the advertised cap governs, a wire body over it is
+answered 413 (also for chunked bodies, which have no declared length). -/
+theorem advertised_raw_overrun_413 (cfg : Cfg) (exempt : Bool) (cl : Int) (rawLen : Nat) (hdr : Bytes)
+    (facts : Facts) (ha : Applied cfg exempt) (ho : (rawLen : Int) > cfg.maxReq) :
+    status (serve cfg exempt cl rawLen hdr facts).1 = 413 := by
+  rw [serve_eq]
+  by_cases hf : FastRefused cfg exempt cl
+  · simp [hf, status]
+  · obtain ⟨h1, h2, _⟩ := rawLimit_applied cfg exempt
+    have hro : RawOver cfg exempt rawLen := by
+      unfold RawOver; rw [h2 ha]; exact ⟨ha.1, ho⟩
+    simp only [hf, if_false]
+    rw [readBody_eq, if_pos hro, h1.mpr ha]
+    rfl
+
+/-- **body_cap_overrun_400** — a wire body over the (non-advertised) body cap, when that is the
+governing raw cap, is answered 400. -/
+theorem body_cap_overrun_400 (cfg : Cfg) (exempt : Bool) (cl : Int) (rawLen : Nat) (hdr : Bytes)
+    (facts : Facts) (hf : ¬ FastRefused cfg exempt cl) (ha : ¬ Applied cfg exempt)
+    (hb : cfg.maxBody > 0) (ho : (rawLen : Int) > cfg.maxBody) :
+    status (serve cfg exempt cl rawLen hdr facts).1 = 400 := by
+  obtain ⟨h1, _, h3⟩ := rawLimit_applied cfg exempt
+  have hro : RawOver cfg exempt rawLen := by
+    unfold RawOver; rw [h3 ha]; exact ⟨hb, ho⟩
+  have hb2 : (rawLimit cfg exempt).2 = false := by
+    cases hx : (rawLimit cfg exempt).2 with
+    | false => rfl
+    | true => exact absurd (h1.mp hx) ha
+  rw [serve_eq, if_neg hf, readBody_eq, if_pos hro, hb2]
+  rfl
+
+/-- **decoded_overrun_status** — a cleanly decodable body (windows within the memory bound) whose
+decoded size exceeds the decoded-size cap in force is answered 413 exactly when that cap is the
+advertised `max_request_bytes`, and 400 when it is the explicit or derived decompressed cap. -/
+theorem decoded_overrun_status (cfg : Cfg) (exempt : Bool) (cl : Int) (rawLen : Nat) (hdr : Bytes)
+    (facts : Facts) (c : Codec) (hc : classify hdr = .codec c) (hf : ¬ FastRefused cfg exempt cl)
+    (hw : RawWithin cfg exempt rawLen) (hcl : Clean facts)
+    (hwin : WindowsFit c facts (decCap cfg exempt))
+    (hpos : decCap cfg exempt > 0) (hover : (total facts.frames : Int) > decCap cfg exempt) :
+    status (serve cfg exempt cl rawLen hdr facts).1 =
+      if Applied cfg exempt ∧ decCap cfg exempt = cfg.maxReq then 413 else 400 := by
+  obtain ⟨h1, h2, h3⟩ := rawLimit_applied cfg exempt
+  rw [serve_eq, if_neg hf, readBody_eq, if_neg (fun ho => (rawOver_iff _ _ _).mp ho hw), hc]
+  simp only
+  -- the decoder answers too-large
+  have htl : (decompressBounded (some c) facts (decCap cfg exempt)).1 = .tooLarge (decCap cfg exempt) := by
+    rw [decompressBounded_eq]
+    split
+    · rfl
+    · simp only [hcl.1, Bool.false_eq_true, if_false]
+      have hcs : (streamAvail (effLimit c (decCap cfg exempt)) facts.tailErr (effFrames c facts)).2 = .clean := by
+        rw [streamAvail_clean_iff]
+        refine ⟨hcl.2, ?_⟩
+        unfold effFrames effLimit
+        by_cases hz : c = .zstd
+        · simp only [hz, if_true]; exact hwin hz
+        · simp only [hz, if_false]; exact zeroed_windows_fit _ _
+      have hta := streamAvail_clean_total _ _ _ hcs
+      rw [total_effFrames] at hta
+      simp only [hpos, if_true, hta, hcs]
+      by_cases h2' : total facts.frames ≥ (decCap cfg exempt).toNat + 2
+      · simp [h2']
+      · have : total facts.frames = (decCap cfg exempt).toNat + 1 := by omega
+        simp [this]
+  rw [htl]
+  by_cases ha : Applied cfg exempt
+  · have e := h2 ha
+    rw [h1.mpr ha, e]
+    by_cases hd : decCap cfg exempt = cfg.maxReq
+    · simp [hd, ha, status]
+    · simp [hd, status]
+  · have hb2 : (rawLimit cfg exempt).2 = false := by
+      cases hx : (rawLimit cfg exempt).2 with
+      | false => rfl
+      | true => exact absurd (h1.mp hx) ha
+    simp [hb2, ha, status]
+
+/-! ## 3. Never more than one byte past a cap -/
+
+/-- **never_past_cap_plus_one** — with a raw limit in force at most `limit + 1` wire bytes are
+read; with a decoded-size cap in force at most `cap + 1` decoded bytes are pulled out of the
+decoder (and none at all when the declared size already exceeds the cap or the fast path fires). -/
+theorem never_past_cap_plus_one (cfg : Cfg) (exempt : Bool) (cl : Int) (rawLen : Nat) (hdr : Bytes)
+    (facts : Facts) :
+    ((rawLimit cfg exempt).1 > 0 →
+      (serve cfg exempt cl rawLen hdr facts).2.1 ≤ (rawLimit cfg exempt).1.toNat + 1) ∧
+    (decCap cfg exempt > 0 →
+      (serve cfg exempt cl rawLen hdr facts).2.2 ≤ (decCap cfg exempt).toNat + 1) ∧
+    (serve cfg exempt cl rawLen hdr facts).2.1 ≤ rawLen := by
+  rw [serve_eq]
+  by_cases hf : FastRefused cfg exempt cl
+  · simp [hf]
+  · simp only [hf, if_false]
+    rw [readBody_eq]
+    have hpr : ((rawLimit cfg exempt).1 > 0 → pulledRaw cfg exempt rawLen ≤ (rawLimit cfg exempt).1.toNat + 1)
+        ∧ pulledRaw cfg exempt rawLen ≤ rawLen := by
+      unfold pulledRaw
+      by_cases hp : (rawLimit cfg exempt).1 > 0
+      · simp only [hp, if_true]; omega
+      · simp [hp]
+    by_cases ho : RawOver cfg exempt rawLen
+    · simp only [ho, if_true]
+      exact ⟨hpr.1, by simp, hpr.2⟩
+    · simp only [ho, if_false]
+      cases hc : classify hdr with
+      | identity => exact ⟨hpr.1, by simp, hpr.2⟩
+      | unknown => exact ⟨hpr.1, by simp, hpr.2⟩
+      | codec c =>
+        exact ⟨hpr.1, fun hp => decompressBounded_pulled (some c) facts _ hp, hpr.2⟩
+
+/-! ## 4. Unknown codings -/
+
+/-- **unknown_coding_415** — a body within the raw caps whose `Content-Encoding` is none of
+identity/zstd/gzip is answered 415; nothing is decoded. -/
+theorem unknown_coding_415 (cfg : Cfg) (exempt : Bool) (cl : Int) (rawLen : Nat) (hdr : Bytes)
+    (facts : Facts) (hu : classify hdr = .unknown) (hf : ¬ FastRefused cfg exempt cl)
+    (hw : RawWithin cfg exempt rawLen) :
+    status (serve cfg exempt cl rawLen hdr facts).1 = 415 ∧
+    (serve cfg exempt cl rawLen hdr facts).2.2 = 0 := by
+  rw [serve_eq, if_neg hf, readBody_eq, if_neg (fun ho => (rawOver_iff _ _ _).mp ho hw), hu]
+  exact ⟨rfl, rfl⟩
+
+/-- **classify_spelling** — the header is read modulo surrounding SP/HTAB and ASCII letter case:
+`OWS name OWS` is classified by the lower-cased name. -/
+theorem classify_spelling (o1 t o2 : Bytes) (ho1 : ∀ x ∈ o1, IsOWS x) (ho2 : ∀ x ∈ o2, IsOWS x)
+    (ht : ∀ x ∈ t, IsVis x) (hne : t ≠ []) :
+    classify (o1 ++ t ++ o2) =
+      (if t.map asciiLower = tIdentity then Enc.identity
+       else if t.map asciiLower = tZstd then .codec .zstd
+       else if t.map asciiLower = tGzip then .codec .gzip else .unknown) := by
+  unfold classify
+  have htasc : ∀ x ∈ t, x.toNat < 0x80 := fun x hx => by have := (ht x hx).2.1; omega
+  rw [trimSpace_token o1 t o2 ho1 ho2 ht hne, lowerTok_ascii t htasc]
+  have : t.map asciiLower ≠ [] := by simpa using hne
+  simp [this]
+
+/-! ## 5. The intermediary decoder: stacks of codings -/
+
+/-- The codings of the header that the decoder acts on, in header order. -/
+def recognised (hdr : Bytes) : List Codec := (splitOn cComma hdr).filterMap codingOf
+
+/-- Specification: undo the given codings one after the other, each on the output of the previous
+one, each bounded by `maxOut`. -/
+def decodeLayers (maxOut : Int) : List Codec → List Facts → Nat → DOut
+  | [], _, cur => .ok cur
+  | _ :: _, [], _ => .decodeErr
+  | c :: cs, f :: fs, _ =>
+    match (decompressBounded (some c) f maxOut).1 with
+    | .ok n => decodeLayers maxOut cs fs n
+    | e => e
+
+theorem decodeLoop_eq (maxOut : Int) : ∀ (raws : List Bytes) (layers : List Facts) (cur : Nat),
+    decodeLoop maxOut raws layers cur = decodeLayers maxOut (raws.filterMap codingOf) layers cur := by
+  intro raws
+  induction raws with
+  | nil => intro layers cur; rfl
+  | cons raw rest ih =>
+    intro layers cur
+    simp only [decodeLoop, List.filterMap_cons]
+    cases hc : codingOf raw with
+    | none => simp only [ih]
+    | some c =>
+      cases layers with
+      | nil => simp [decodeLayers]
+      | cons f more =>
+        simp only [decodeLayers]
+        cases hd : (decompressBounded (some c) f maxOut).1 with
+        | ok n => simp only [ih]
+        | tooLarge l => rfl
+        | decodeErr => rfl
+        | unsupported => rfl
+
+/-- **stack_reverse_order** — `DecodeContentEncoding` undoes exactly the zstd/gzip codings named
+in the header, last-applied first (the reverse of the header order); identity, empty and unknown
+elements are no-ops wherever they stand. -/
+theorem stack_reverse_order (dataLen : Nat) (hdr : Bytes) (maxOut : Int) (layers : List Facts) :
+    decodeContentEncoding dataLen hdr maxOut layers =
+      decodeLayers maxOut (recognised hdr).reverse layers dataLen := by
+  unfold decodeContentEncoding recognised
+  by_cases h0 : hdr = []
+  · subst h0
+    have : ((splitOn cComma []).filterMap codingOf) = [] := by decide
+    simp [this, decodeLayers]
+  · simp only [h0, if_false, decodeLoop_eq, List.filterMap_reverse]
+
+/-- **stack_noop** — a header naming no zstd/gzip coding returns the data unchanged. -/
+theorem stack_noop (dataLen : Nat) (hdr : Bytes) (maxOut : Int) (layers : List Facts)
+    (h : recognised hdr = []) : decodeContentEncoding dataLen hdr maxOut layers = .ok dataLen := by
+  rw [stack_reverse_order, h]; rfl
+
+theorem decodeLayers_limit (maxOut : Int) (hm : maxOut > 0) :
+    ∀ (cs : List Codec) (fs : List Facts) (cur n : Nat), cs ≠ [] →
+      decodeLayers maxOut cs fs cur = .ok n → (n : Int) ≤ maxOut := by
+  intro cs
+  induction cs with
+  | nil => intro _ _ _ h; exact absurd rfl h
+  | cons c cs ih =>
+    intro fs cur n _ h
+    cases fs with
+    | nil => simp [decodeLayers] at h
+    | cons f fs =>
+      simp only [decodeLayers] at h
+      cases hd : (decompressBounded (some c) f maxOut).1 with
+      | ok k =>
+        simp only [hd] at h
+        cases cs with
+        | nil =>
+          simp only [decodeLayers, DOut.ok.injEq] at h
+          subst h
+          exact (decompressBounded_ok c f maxOut k hd).2.2.2.1 hm
+        | cons c2 cs2 => exact ih fs k n (by simp) h
+      | tooLarge l => simp [hd] at h
+      | decodeErr => simp [hd] at h
+      | unsupported => simp [hd] at h
+
+/-- **per_coding_limit** — with a positive limit, whenever at least one coding is undone the
+returned body is at most `maxOut` bytes. -/
+theorem per_coding_limit (dataLen : Nat) (hdr : Bytes) (maxOut : Int) (layers : List Facts) (n : Nat)
+    (hm : maxOut > 0) (hr : recognised hdr ≠ [])
+    (h : decodeContentEncoding dataLen hdr maxOut layers = .ok n) : (n : Int) ≤ maxOut := by
+  rw [stack_reverse_order] at h
+  exact decodeLayers_limit maxOut hm _ layers dataLen n (by simpa using hr) h
+
+/-- A layer the library decodes cleanly, within the per-coding limit. -/
+def LayerFits (maxOut : Int) (c : Codec) (f : Facts) : Prop :=
+  Clean f ∧ WindowsFit c f maxOut ∧ (maxOut > 0 → DeclaredFits f maxOut) ∧
+  (maxOut > 0 → (total f.frames : Int) ≤ maxOut)
+
+/-- The size of the innermost payload: the decoded size of the last layer undone. -/
+def innermost (dataLen : Nat) : List Facts → Nat
+  | [] => dataLen
+  | [f] => total f.frames
+  | _ :: rest => innermost dataLen rest
+
+theorem innermost_nonempty (a b : Nat) : ∀ (f : Facts) (fs : List Facts),
+    innermost a (f :: fs) = innermost b (f :: fs) := by
+  intro f fs
+  induction fs generalizing f with
+  | nil => rfl
+  | cons g rest ih => exact ih g
+
+theorem decodeLayers_exact (maxOut : Int) : ∀ (cs : List Codec) (fs : List Facts) (cur : Nat),
+    cs.length = fs.length → (∀ p ∈ cs.zip fs, LayerFits maxOut p.1 p.2) →
+    decodeLayers maxOut cs fs cur = .ok (innermost cur fs) := by
+  intro cs
+  induction cs with
+  | nil => intro fs cur hl _; cases fs with
+    | nil => rfl
+    | cons _ _ => simp at hl
+  | cons c cs ih =>
+    intro fs cur hl hfit
+    cases fs with
+    | nil => simp at hl
+    | cons f fs =>
+      obtain ⟨h1, h2, h3, h4⟩ := hfit (c, f) (by simp)
+      simp only [decodeLayers, decompressBounded_clean c f maxOut h1 h2 h3 h4]
+      rw [ih fs (total f.frames) (by simpa using hl)
+        (fun p hp => hfit p (by simp only [List.zip_cons_cons, List.mem_cons]; exact Or.inr hp))]
+      cases fs with
+      | nil => rfl
+      | cons g rest => exact congrArg DOut.ok (innermost_nonempty _ _ g rest)
+
+/-- **stack_exact** — any stack of cleanly decodable layers, each within the per-coding limit, is
+undone completely: the result is the innermost payload. -/
+theorem stack_exact (dataLen : Nat) (hdr : Bytes) (maxOut : Int) (layers : List Facts)
+    (hl : (recognised hdr).length = layers.length)
+    (hfit : ∀ p ∈ (recognised hdr).reverse.zip layers, LayerFits maxOut p.1 p.2) :
+    decodeContentEncoding dataLen hdr maxOut layers = .ok (innermost dataLen layers) := by
+  rw [stack_reverse_order]
+  exact decodeLayers_exact maxOut _ layers dataLen (by simpa using hl) hfit
+
+/-! ## Non-vacuity -/
+
+def ofChars (cs : List Char) : Bytes := cs.map fun c => UInt8.ofNat c.toNat
+
+/-- 1 000 wire bytes of zstd declaring and decoding to 16 000 bytes, body cap 1 000 (derived
+decoded cap 16 000): delivered; one byte more decoded: 400; with the advertised cap 16 000
+governing instead: 413. -/
+example : serve ⟨1000, 0, 0⟩ false 1000 1000 (ofChars "zstd".toList)
+    ⟨some 16000, false, [⟨16000, 16000⟩], false, false⟩ = (.body 16000, 1000, 16000) := by decide
+example : status (serve ⟨1000, 0, 0⟩ false 1000 1000 (ofChars " ZSTD ".toList)
+    ⟨none, false, [⟨1024, 16001⟩], false, false⟩).1 = 400 := by decide
+example : status (serve ⟨0, 16000, 0⟩ false 1000 1000 (ofChars "gzip".toList)
+    ⟨none, false, [⟨0, 8000⟩, ⟨0, 8001⟩], false, false⟩).1 = 413 := by decide
+/-- raw cap + 1: exactly `cap + 1` bytes are read, then 413 (advertised) / 400 (body cap) -/
+example : serve ⟨0, 99, 0⟩ false (-1) 5000 [] ⟨none, false, [], false, false⟩ = (.tooLarge 99, 100, 0) := by decide
+example : serve ⟨99, 0, 0⟩ false (-1) 100 [] ⟨none, false, [], false, false⟩ = (.valueErr, 100, 0) := by decide
+/-- negative decompressed cap = no cap -/
+example : serve ⟨10, 0, -1⟩ false 10 10 (ofChars "gzip".toList)
+    ⟨none, false, [⟨0, 1000000⟩], false, false⟩ = (.body 1000000, 10, 1000000) := by decide
+/-- exempt path: the advertised cap does not apply -/
+example : isExempt (ofChars "/vgi".toList) (ofChars "/vgi/health".toList) = true ∧
+    isExempt [] (ofChars "/healthz".toList) = false := by decide
+example : (serve ⟨0, 10, 0⟩ true 500 500 [] ⟨none, false, [], false, false⟩).1 = .body 500 := by decide
+example : status (serve ⟨0, 0, 0⟩ false 5 5 (ofChars "br".toList) ⟨none, false, [], false, false⟩).1 = 415 := by
+  decide
+/-- "gzip, zstd": zstd was applied last and is undone first -/
+example : recognised (ofChars "gzip, br, ZSTD".toList) = [.gzip, .zstd] := by decide
+example : decodeContentEncoding 50 (ofChars "gzip, zstd".toList) 0
+    [⟨some 80, false, [⟨1024, 80⟩], false, false⟩, ⟨none, false, [⟨0, 300⟩], false, false⟩] = .ok 300 := by decide
+example : decodeContentEncoding 50 (ofChars "gzip, zstd".toList) 100
+    [⟨some 80, false, [⟨1024, 80⟩], false, false⟩, ⟨none, false, [⟨0, 300⟩], false, false⟩] = .decodeErr := by
+  decide
+example : decodeContentEncoding 50 (ofChars "gzip, zstd".toList) 2000
+    [⟨some 80, false, [⟨1024, 80⟩], false, false⟩, ⟨none, false, [⟨0, 3000⟩], false, false⟩] = .tooLarge 2000 := by
+  decide
+
 end Vgi.Props.C18
